@@ -14,6 +14,14 @@ CHECKS = {
   text="Every iteration over a HashMap/HashSet in the five crates is regenerated from the source on each run and proved (vm_compute) equal to a hand-reviewed list in which each site carries the class of its consumer; for every order-free class a Coq theorem shows that all visiting orders of the same entries give the same observation (and that the first-error shape does not). The real compiler is compiled repeatedly in one process and in fresh processes on valid and multi-error inputs.",
   note="Trusted: Coq kernel, the name-based site finder, the hand review of site classes (DocHashSites.v), the consumer models; other sources of nondeterminism (environment, addresses) are covered only by the repetitions. No axioms.",
   technique="Coq permutation-invariance proofs per hash-iteration site + regenerated site table + repeated-compilation oracle", design="DESIGN.md §4 C16"),
+ "C07": dict(
+  text="The places where the compiler can panic by construction (unreachable!/panic!/assert!/unwrap/expect/remove(0)) are regenerated from the five crates on every run and proved (vm_compute) equal to a hand-reviewed table that records for each why it cannot fire on the compile path; Coq theorems give totality and progress of the tokenizer model for every input. The real compile() is run with panic capture, a watchdog and rendering of every returned error on mutated/truncated/spliced real programs, token soup, multi-error and multi-file projects, and mutants of generated well-typed programs.",
+  note="Partial by nature: native stack exhaustion, allocation failure and wall-clock are runtime behaviour outside any model (nesting depth is bounded in the generators). The review of guarded sites is a hand argument, not a theorem; parser/resolver/type-checker totality is covered by the oracle (and by the other agents' models where they exist). No axioms.",
+  technique="regenerated panic-site table vs reviewed table (vm_compute) + lexer totality theorems (Coq) + totality fuzz oracle with panic capture and watchdog", design="DESIGN.md §4 C07"),
+ "C10": dict(
+  text="Static half of C10: a Coq model of intermediate.rs + lua.rs (IR lowering, usage counting, text generation) is fed the real resolver's output and must reproduce the real compiler's Lua text byte for byte on every run; on the model's IR a scoping checker (every variable is introduced as a Lua local/parameter/external in an enclosing block before it is read or assigned; assignment targets are real locals, not inlinable temporaries) must accept every accepted program, and an independent scan of the REAL Lua text must find no V-name outside a binding.",
+  note="The scoping theorem for all programs (lower_scoped) is not yet proved: the claim currently rests on the byte-exact tie + the checker run on every program of the tie (translation-validation strength) + the independent text oracle. The dynamic half (fresh cells per activation/iteration, capture by reference) is Lua semantics and needs the Lua interpreter model. No axioms.",
+  technique="Coq backend model tied byte-exactly to the real output + IR scoping checker + independent text scan", design="DESIGN.md §4 C10"),
 }
 
 NOT_YET = "not yet claimed in this revision (machinery under construction; see DESIGN.md §4 for the plan)"
